@@ -21,6 +21,7 @@ consistency.
 
 CLI:  worlds.py library <outdir>            write the hand-written corner-case worlds
       worlds.py random <seed> <n> <outdir>  write n seeded random worlds
+      worlds.py curved <seed> <n> <outdir>  write n seeded curved (non-lattice) world descriptions
       worlds.py check <file>...             validate world files
 """
 import itertools
@@ -567,6 +568,126 @@ def random_world(seed, big=False):
     raise RuntimeError("could not generate a world for seed %d" % seed)
 
 
+# ----------------------------------------------------------------------- curved worlds
+# Non-lattice seeded worlds for the fixture pipeline (C03 boundary turns, C11 probes): boxes placed
+# with ARBITRARY rotations / reflections and translations, holding spheres and cylinders, nested up
+# to three levels.  vnav `dump` builds them through orangeinp and writes an ordinary .org.json, which
+# the independent oracle reads like any other geometry file (the oracle's validity gate re-checks
+# that nothing overlaps).  Disjointness is by construction (bounding spheres with a gap).
+def _rand_rotation(rng):
+    import math
+    while True:
+        q = [rng.gauss(0, 1) for _ in range(4)]
+        nq = math.sqrt(sum(x * x for x in q))
+        if nq > 1e-3:
+            break
+    a, b, c, d = [x / nq for x in q]
+    m = [[a * a + b * b - c * c - d * d, 2 * (b * c - a * d), 2 * (b * d + a * c)],
+         [2 * (b * c + a * d), a * a - b * b + c * c - d * d, 2 * (c * d - a * b)],
+         [2 * (b * d - a * c), 2 * (c * d + a * b), a * a - b * b - c * c + d * d]]
+    if rng.random() < 0.3:       # improper: reflect x
+        m = [[-m[r][0], m[r][1], m[r][2]] for r in range(3)]
+    return m
+
+
+def _place(rng, half, radius, taken, gap=0.25, tries=200):
+    """Centre of a ball of the given radius inside the box +-half, clear of the balls in `taken`."""
+    if any(half[k] - radius - gap <= 0 for k in range(3)):
+        return None
+    for _ in range(tries):
+        c = [rng.uniform(-(half[k] - radius - gap), half[k] - radius - gap) for k in range(3)]
+        if all(sum((c[k] - o[k]) ** 2 for k in range(3)) > (radius + r + gap) ** 2 for o, r in taken):
+            return c
+    return None
+
+
+def _solids(rng, name, half, taken, nmax, nonsimple=False):
+    """Spheres and (axis-aligned) cylinders; with nonsimple also cones and ellipsoids, each under its own
+    arbitrary rotation, i.e. surfaces WITHOUT a simple safety distance (kx/ky/kz, sq, gq) bounding the
+    unit's background volume."""
+    import math
+    out = []
+    for i in range(nmax):
+        kind = rng.choice(("sphere", "cyl", "cone", "ell") if nonsimple else ("sphere", "cyl"))
+        if nonsimple and i == 0:
+            kind = rng.choice(("cone", "ell"))
+        m = min(half)
+        if kind == "sphere":
+            r = rng.uniform(0.5, 0.4 * m)
+            c = _place(rng, half, r, taken)
+            if c is None:
+                continue
+            out.append({"name": "%s.s%d" % (name, i), "shape": "sphere", "c": c, "r": r})
+            taken.append((c, r))
+        elif kind == "cyl":
+            r = rng.uniform(0.4, 0.3 * m)
+            hh = rng.uniform(0.4, 0.3 * m)
+            br = math.sqrt(r * r + hh * hh)
+            c = _place(rng, half, br, taken)
+            if c is None:
+                continue
+            out.append({"name": "%s.c%d" % (name, i), "shape": "cyl", "c": c, "r": r, "hh": hh,
+                        "axis": rng.randrange(3)})
+            taken.append((c, br))
+        elif kind == "cone":
+            r0, r1 = rng.uniform(0.0, 0.15 * m), rng.uniform(0.3, 0.3 * m)
+            if rng.random() < 0.5:
+                r0, r1 = r1, r0
+            hh = rng.uniform(0.5, 0.35 * m)
+            br = math.sqrt(max(r0, r1) ** 2 + hh * hh)
+            c = _place(rng, half, br, taken)
+            if c is None:
+                continue
+            out.append({"name": "%s.k%d" % (name, i), "shape": "cone", "c": c, "r0": r0, "r1": r1, "hh": hh,
+                        "R": _rand_rotation(rng) if rng.random() < 0.6 else None})
+            taken.append((c, br))
+        else:
+            rad = [rng.uniform(0.4, 0.35 * m) for _ in range(3)]
+            c = _place(rng, half, max(rad), taken)
+            if c is None:
+                continue
+            out.append({"name": "%s.e%d" % (name, i), "shape": "ell", "c": c, "radii": rad,
+                        "R": _rand_rotation(rng) if rng.random() < 0.6 else None})
+            taken.append((c, max(rad)))
+    return out
+
+
+def curved_world(seed, nonsimple=False):
+    import math
+    rng = random.Random(seed * 7919 + 13 + (104729 if nonsimple else 0))
+    us = [None]
+    ghalf = [14.0, 14.0, 14.0]
+    gtaken = []
+    gd = []
+    for k in range(rng.randint(2, 3)):
+        half = [rng.uniform(3.0, 6.0) for _ in range(3)]
+        c = _place(rng, ghalf, math.sqrt(sum(h * h for h in half)), gtaken)
+        if c is None:
+            continue
+        gtaken.append((c, math.sqrt(sum(h * h for h in half))))
+        name = "K%d" % k
+        taken = []
+        sub = []
+        ui = len(us)
+        us.append(None)
+        if rng.random() < 0.6:           # a third level: a small rotated box inside this one
+            h2 = [rng.uniform(1.2, 0.3 * min(half) + 1.0) for _ in range(3)]
+            r2 = math.sqrt(sum(h * h for h in h2))
+            c2 = _place(rng, half, r2, taken)
+            if c2 is not None:
+                taken.append((c2, r2))
+                lname = name + "L"
+                us.append({"name": lname, "half": h2, "solids": _solids(rng, lname, h2, [], 2, nonsimple), "daughters": [],
+                           "bg": lname + ".bg"})
+                sub.append({"u": len(us) - 1, "R": _rand_rotation(rng), "t": c2})
+        us[ui] = {"name": name, "half": half, "solids": _solids(rng, name, half, taken, 3, nonsimple), "daughters": sub,
+                  "bg": name + ".bg"}
+        gd.append({"u": ui, "R": _rand_rotation(rng), "t": c})
+    us[0] = {"name": "G", "half": ghalf, "solids": _solids(rng, "G", ghalf, gtaken, 2, nonsimple), "daughters": gd,
+             "bg": "G.bg"}
+    return {"name": ("crq_%d" if nonsimple else "crv_%d") % seed, "kind": "curved", "universes": us}
+
+
 def write_world(w, outdir):
     npaths = check_world(w)
     w = dict(w)
@@ -588,6 +709,14 @@ def main(argv):
         os.makedirs(out, exist_ok=True)
         for i in range(n):
             print(write_world(random_world(seed + i), out))
+    elif argv[1] == "curved":
+        seed, n, out = int(argv[2]), int(argv[3]), argv[4]
+        os.makedirs(out, exist_ok=True)
+        for i in range(n):
+            w = curved_world(seed + i)
+            path = os.path.join(out, w["name"] + ".json")
+            json.dump(w, open(path, "w"))
+            print(path)
     elif argv[1] == "check":
         for f in argv[2:]:
             print(f, check_world(json.load(open(f))))
